@@ -1,6 +1,7 @@
 """C10 — The most specific customization wins (engine E1, customization lattice)."""
 import datetime
 import itertools
+import typing
 from dataclasses import field, make_dataclass
 from typing import Annotated, List
 
@@ -45,6 +46,24 @@ def units(tier):
             if "calld" in present and "fmtd" in present:
                 continue
             out.append(("split", fopt, 0, masks, "dict"))
+    # SerializationStrategy(use_annotations=True) registrations (converted through the types its methods are annotated with) competing
+    # with plain ones: every choice of at most two of the eight slots, each plain or annotated
+    for n_present in (1, 2):
+        for slots_ in itertools.combinations(range(len(SPLIT_SLOTS)), n_present):
+            for kinds in itertools.product(("plain", "annotated"), repeat=n_present):
+                present = {SPLIT_SLOTS[i].split(":")[0] for i in slots_}
+                if "calld" in present and "fmtd" in present:
+                    continue
+                if "annotated" in kinds:
+                    out.append(("annotated", slots_, kinds))
+    # several registered types inside ONE field: a named tuple rendered by an engine NAME, an unregistered named tuple, a date with a marker
+    for engine in ("as_dict", "as_list", None):
+        for l1 in LEVELS[2:]:
+            for l2 in [None] + LEVELS[2:]:
+                for order in ("stamp-first", "date-first"):
+                    if {l1, l2} >= {"calld", "fmtd"}:
+                        continue
+                    out.append(("composite", engine, l1, l2, order))
     okeys = [None, ("alias",), ("exact",), ("alias", "exact")]
     for fopt, fstrat in itertools.product((0, 1), repeat=2):
         for ks3 in itertools.product(okeys, repeat=3):
@@ -61,10 +80,17 @@ def run_unit(unit, only=None):
     from mashumaro.mixins.orjson import DataClassORJSONMixin
     from mashumaro.types import SerializationStrategy
 
-    family, fopt, fstrat, ks4, form = unit
+    family = unit[0]
     res = core.UnitResult()
+    if family == "annotated":
+        return run_annotated(unit, res)
+    family, fopt, fstrat, ks4, form = unit
     if family == "split":
         return run_split(unit, res)
+    if family == "composite":
+        return run_composite(unit, res)
+    if family == "annotated":
+        return run_annotated(unit, res)
 
     class Strat(SerializationStrategy):
         def __init__(self, m):
@@ -280,8 +306,171 @@ def run_split(unit, res):
     return res
 
 
+def run_annotated(unit, res):
+    from mashumaro import DataClassDictMixin
+    from mashumaro.codecs.basic import BasicDecoder, BasicEncoder
+    from mashumaro.config import ADD_DIALECT_SUPPORT, BaseConfig
+    from mashumaro.dialect import Dialect
+    from mashumaro.types import SerializationStrategy
+    _, slots_, kinds = unit
+    Ann = Annotated[List[int], "tag"]
+    KEYS = {"alias": Ann, "exact": List[int], "origin": list}
+
+    def make(slot, kind):
+        if kind == "plain":
+            return {"serialize": (lambda v, m=slot: ("S", m)), "deserialize": (lambda v, m=slot: ("D", m))}
+
+        class AS(SerializationStrategy, use_annotations=True):
+            # (the value type is a tuple so that no registration of this unit, not even the one for `list`, applies to it in turn)
+            def serialize(self, value: List[int]) -> typing.Tuple[str, ...]:
+                return (f"S:{slot}",)
+
+            def deserialize(self, value: typing.Tuple[str, ...]) -> List[int]:
+                return ("D", slot, list(value))
+        return AS()
+    cand, meta = [], {}
+    per_level = {"calld": {}, "cfgd": {}, "cfgss": {}, "fmtd": {}}
+    for i, kind in zip(slots_, kinds):
+        sl = SPLIT_SLOTS[i]
+        if sl == "fstrat":
+            meta["serialization_strategy"] = make(sl, kind)
+            cand.append(((1, 0, 0), sl, kind))
+        else:
+            lv, k = sl.split(":")
+            per_level[lv][KEYS[k]] = make(sl, kind)
+            cand.append(((2, KEY_ORDER.index(k), LEVELS.index(lv)), sl, kind))
+    _, wslot, wkind = min(cand)
+    want_s = ("S", wslot) if wkind == "plain" else [f"S:{wslot}"]
+    want_d = ("D", wslot) if wkind == "plain" else ("D", wslot, ["7"])     # the input [7] is first converted to Tuple[str, ...]
+    cfg = {"code_generation_options": [ADD_DIALECT_SUPPORT]}
+    calld = fmtd = None
+    if per_level["calld"]:
+        calld = type("CD", (Dialect,), {"serialization_strategy": per_level["calld"]})
+    if per_level["cfgd"]:
+        cfg["dialect"] = type("GD", (Dialect,), {"serialization_strategy": per_level["cfgd"]})
+    if per_level["cfgss"]:
+        cfg["serialization_strategy"] = per_level["cfgss"]
+    if per_level["fmtd"]:
+        fmtd = type("FD", (Dialect,), {"serialization_strategy": per_level["fmtd"]})
+    with space.Ctx() as ctx:
+        Cfg = type("Config", (BaseConfig,), cfg)
+        results = {}
+        try:
+            if fmtd is None:
+                cls = make_dataclass("M", [("x", Ann, field(metadata=meta))], bases=(DataClassDictMixin,),
+                                     namespace={"Config": Cfg, "__module__": ctx.modname})
+                ctx.ns["M"] = cls
+                kw = {"dialect": calld} if calld else {}
+                results["mixin"] = (cls([1]).to_dict(**kw)["x"], cls.from_dict({"x": [7]}, **kw).x)
+            if calld is None:
+                pl = make_dataclass("P", [("x", Ann, field(metadata=meta))], namespace={"Config": Cfg, "__module__": ctx.modname})
+                ctx.ns["P"] = pl
+                kw = {"default_dialect": fmtd} if fmtd else {}
+                results["codec"] = (BasicEncoder(pl, **kw).encode(pl([1]))["x"], BasicDecoder(pl, **kw).decode({"x": [7]}).x)
+        except RecursionError:
+            res.cases += 1
+            res.violation(f"raised|{unit}", "raised", "RecursionError", dict(unit=unit),
+                          f"class creation recursed: registrations {[(sl, kd) for _, sl, kd in cand]}")
+            return res
+        except Exception as e:   # noqa: BLE001
+            res.cases += 1
+            res.violation(f"raised|{unit}", "raised", type(e).__name__, dict(unit=unit), repr(e)[:300])
+            return res
+        for ep, (s_, d_) in results.items():
+            res.cases += 2
+            res.transitions += 4
+            for direction, got, want_ in (("serialize", s_, want_s), ("deserialize", d_, want_d)):
+                if got != want_:
+                    res.outcomes["neq"] += 1
+                    res.violation(f"winner-neq|{unit}|{ep}|{direction}", "winner-neq", "neq", dict(unit=unit, entry=ep, direction=direction),
+                                  f"registrations {[(sl, kd) for _, sl, kd in cand]}: want={want_!r} got={got!r:.200}")
+                else:
+                    res.outcomes["ok"] += 1
+                    res.nontrivial += 1
+        res.sample(dict(family="annotated", registrations=[(sl, kd) for _, sl, kd in cand], winner=wslot), cap=1)
+    res.states += 1
+    return res
+
+
+def run_composite(unit, res):
+    """Field x: Tuple[Stamp, Plain, date] (or date first). Stamp (NamedTuple(day: date, n: int)) is registered with an engine NAME at level l1,
+    date with a marker function at level l2, Plain (NamedTuple(a: int)) nowhere: every type is rendered by ITS OWN registration."""
+    import collections
+    from mashumaro import DataClassDictMixin
+    from mashumaro.codecs.basic import BasicDecoder, BasicEncoder
+    from mashumaro.config import ADD_DIALECT_SUPPORT, BaseConfig
+    from mashumaro.dialect import Dialect
+    _, engine, l1, l2, order = unit
+    date = datetime.date
+    with space.Ctx() as ctx:
+        ctx.ns["_date"] = date
+        ctx.run("class Stamp(NamedTuple):\n    day: _date\n    n: int\nclass Plain(NamedTuple):\n    a: int\n")
+        Stamp, Plain = ctx.ns["Stamp"], ctx.ns["Plain"]
+        per_level = collections.defaultdict(dict)
+        if engine:
+            per_level[l1][Stamp] = {"serialize": engine, "deserialize": engine}
+        if l2:
+            per_level[l2][date] = {"serialize": (lambda v: "S:" + v.isoformat()), "deserialize": (lambda s: date.fromisoformat(s[2:]))}
+        cfg = {"code_generation_options": [ADD_DIALECT_SUPPORT]}
+        calld = fmtd = None
+        if per_level["calld"]:
+            calld = type("CD", (Dialect,), {"serialization_strategy": per_level["calld"]})
+        if per_level["cfgd"]:
+            cfg["dialect"] = type("GD", (Dialect,), {"serialization_strategy": per_level["cfgd"]})
+        if per_level["cfgss"]:
+            cfg["serialization_strategy"] = per_level["cfgss"]
+        if per_level["fmtd"]:
+            fmtd = type("FD", (Dialect,), {"serialization_strategy": per_level["fmtd"]})
+        T = typing.Tuple[Stamp, Plain, date] if order == "stamp-first" else typing.Tuple[date, Plain, Stamp]
+        d0, d1 = date(2020, 1, 2), date(2021, 6, 7)
+        pd = (lambda v: "S:" + v.isoformat()) if l2 else (lambda v: v.isoformat())
+        stamp_w = {"as_dict": {"day": pd(d0), "n": 3}, "as_list": [pd(d0), 3], None: [pd(d0), 3]}[engine]
+        value = (Stamp(d0, 3), Plain(1), d1) if order == "stamp-first" else (d1, Plain(1), Stamp(d0, 3))
+        wire = [stamp_w, [1], pd(d1)] if order == "stamp-first" else [pd(d1), [1], stamp_w]
+        Cfg = type("Config", (BaseConfig,), cfg)
+        results = {}
+        try:
+            if fmtd is None:
+                cls = make_dataclass("M", [("x", T), ("y", date, field(default=d1))], bases=(DataClassDictMixin,),
+                                     namespace={"Config": Cfg, "__module__": ctx.modname})
+                ctx.ns["M"] = cls
+                kw = {"dialect": calld} if calld else {}
+                out = cls(value).to_dict(**kw)
+                back = cls.from_dict({"x": wire, "y": pd(d1)}, **kw)
+                results["mixin"] = ((out["x"], out["y"]), (back.x, back.y))
+            if calld is None:
+                pl = make_dataclass("P", [("x", T), ("y", date, field(default=d1))], namespace={"Config": Cfg, "__module__": ctx.modname})
+                ctx.ns["P"] = pl
+                kw = {"default_dialect": fmtd} if fmtd else {}
+                out = BasicEncoder(pl, **kw).encode(pl(value))
+                back = BasicDecoder(pl, **kw).decode({"x": wire, "y": pd(d1)})
+                results["codec"] = ((out["x"], out["y"]), (back.x, back.y))
+        except Exception as e:   # noqa: BLE001
+            res.cases += 1
+            res.violation(f"raised|{unit}", "raised", type(e).__name__, dict(unit=unit), repr(e)[:300])
+            return res
+        for ep, (s_, d_) in results.items():
+            res.cases += 2
+            res.transitions += 4
+            for direction, got, want_ in (("serialize", s_, (wire, pd(d1))), ("deserialize", d_, (value, d1))):
+                if got != want_ or (direction == "deserialize" and [type(v) for v in got[0]] != [type(v) for v in value]):
+                    res.outcomes["neq"] += 1
+                    res.violation(f"winner-neq|{unit}|{ep}|{direction}", "winner-neq", "neq", dict(unit=unit, entry=ep, direction=direction),
+                                  f"engine {engine!r} for the named tuple at {l1}, date marker at {l2}: want={want_!r:.200} got={got!r:.200}")
+                else:
+                    res.outcomes["ok"] += 1
+                    res.nontrivial += 1
+        res.sample(dict(family="composite", engine=engine, levels=(l1, l2), order=order), cap=1)
+    res.states += 1
+    return res
+
+
 def replay(case):
     u = core.detuple(case["unit"])
+    if u[0] == "composite":
+        return run_composite(tuple(u), core.UnitResult()).violations
+    if u[0] == "annotated":
+        return run_annotated((u[0], tuple(u[1]), tuple(u[2])), core.UnitResult()).violations
     if u[0] == "split":
         return run_split((u[0], u[1], u[2], tuple(u[3]), u[4]), core.UnitResult()).violations
     unit = (u[0], u[1], u[2], tuple(None if k is None else tuple(k) for k in u[3]), u[4])
